@@ -62,7 +62,8 @@ def main():
         "and run through write_vcf_block for every read-filter configuration and every threshold class. "
         "Non-trivial = state with >= 2 alignments."
     )
-    instances = [("MC_%s.cfg" % tier, "FindSnvs-filter", False), ("MC_%s_thresh.cfg" % tier, "FindSnvs-thresholds", True)]
+    instances = [("MC_%s.cfg" % tier, "FindSnvs-filter", False), ("MC_%s_thresh.cfg" % tier, "FindSnvs-thresholds", True),
+                 ("MC_minind.cfg", "FindSnvs-thresholds-min-ind", True)]
     if not quick:
         instances.append(("MC_thorough_deep.cfg", "FindSnvs-filter-deep", False))
         instances.append(("MC_thorough_thresh3.cfg", "FindSnvs-thresholds-3samples", True))
